@@ -41,6 +41,7 @@ def generate(ctx):
             d["combine"] = rng.choice(COMBINES)
             d["post"] = rng.random() < 0.5
             d["pre"] = rng.random() < 0.5
+            d["pre_inplace"] = rng.random() < 0.5      # the first group's transform modifies its argument in place
             d["subset"] = rng.random() < 0.6
         else:
             d["trainable_feedback"] = rng.random() < 0.5
@@ -59,6 +60,11 @@ def generate(ctx):
 
 def _double(x, **kw):
     return x * 2.0
+
+
+def _double_inplace(x, **kw):
+    # a transform that works in place on what it is handed (torch.relu_, nn.ReLU(inplace=True), x.clamp_() are of this kind)
+    return x.mul_(2.0)
 
 
 def _offset_kw(x, offset=0.0, **kw):
@@ -154,7 +160,8 @@ def _layer(desc, parts):
         return neural.Serial(parts.conns["serial"], parts.neurons["serial"], transform=tf, **nm)
     if kind == "biclique":
         cs = [(k, c, _double) if desc["post"] and i == 0 else (k, c) for i, (k, c) in enumerate(parts.conns.items())]
-        ns = [(k, n, _double) if desc["pre"] and j == 0 else (k, n) for j, (k, n) in enumerate(parts.neurons.items())]
+        ntf = _double_inplace if desc.get("pre_inplace") else _double
+        ns = [(k, n, ntf) if desc["pre"] and j == 0 else (k, n) for j, (k, n) in enumerate(parts.neurons.items())]
         comb = _custom_combine if desc["combine"] == "custom" else desc["combine"]
         return neural.Biclique(cs, ns, combine=comb)
     kw = {}
@@ -304,6 +311,8 @@ def run_case(ctx, desc):
         ctx.count("sampled." + kind)
         ctx.sample(desc)
     tag = kind + ("." + desc["combine"] if kind == "biclique" else "")
+    if kind == "biclique" and desc["pre"] and desc.get("pre_inplace") and desc["nneurons"] > 1:
+        ctx.count("bicliques_with_inplace_transform_before_another_group")
     if kind == "recurrent":
         tfs = _tfset(desc)
         tag += ".tf-" + ("+".join(sorted(tfs)) or "none")
